@@ -8,7 +8,7 @@ tokens (tuples):
   ('lit', c)                    a character written as itself (only used for characters that are not magic)
   ('esc', c)                    backslash + c : matches c
   ('star',) ('q',)              * and ?
-  ('br', neg, items)            bracket expression; items: ('ch', c) | ('rng', a, b) | ('posix', name)
+  ('br', neg, items)            bracket expression; items: ('ch', c) | ('ech', c) escaped | ('rng', a, b) | ('posix', name)
   ('ext', kind, alts)           extended group kind in '?*+@!'; alts: tuple of token tuples
 path-level elements (only in path patterns, between segments):
   ('sep',)                      a written separator (rendered '/'; a run renders as several)
@@ -32,6 +32,8 @@ def render_br(tok):
     for it in items:
         if it[0] == 'ch':
             out.append(it[1])
+        elif it[0] == 'ech':
+            out.append('\\' + it[1])          # an escaped member: denotes the character itself
         elif it[0] == 'rng':
             out.append(f'{it[1]}-{it[2]}')
         else:
